@@ -125,6 +125,10 @@ func (w *World) Init() error {
 	}
 	chainkit.Start(w.ref)
 	w.gen = histgen.New(w.T, w.Net, w.ref, vh.Seed()*7919+int64(w.WI), 8)
+	if w.P2P {
+		// state-sync worlds stay clear of the two listed findings of state-synchronised nodes (DESIGN 10.9; C20 reproduces them)
+		w.gen.AvoidOldOracle, w.gen.NoVMStateProbe = true, true
+	}
 	w.know = Know{FlatAt: map[[32]byte]int{}, SRIH: w.SRIH, Sink: w.P2P}
 	w.refSync()
 	w.know.Hashes = append(w.know.Hashes, w.ref.GetHeaderHash(0))
